@@ -192,6 +192,15 @@ def generate(tier, seed):
     for mode in ("lev", "hamming", "custom"):
         for m in (1, 2):
             yield "formats", {"engine": "kdtree", "seqs": W1 + ["CAAD", "CADD", "CAKA"], "k": 2, "mode": mode, "max_returns": m}, True
+    # result sizes that are exact multiples of 2^16 triplets (256 clone reads against 256 one-mismatch reads), and one more / one less
+    for eng, (na, nb) in (("symdel", (256, 256)), ("nearest_neighbor", (512, 256)), ("symdel", (257, 255))):
+        yield "formats", {"engine": eng, "seqs": ["CASSLGF"] * na, "seqs2": ["CASSLGW"] * (nb - 1) + ["CASSLGF"], "k": 1, "mode": "lev"}, True
+    if thorough:
+        # query positions beyond 2^16 with a short reference, and the reverse
+        big = G.repertoire(random.Random(10700 + seed), 70001, families=20000)
+        small = [big[-1], big[-5], big[66000], big[3], G.mutate(rng, big[-2], G.AA, 1)] * 8
+        yield "formats", {"engine": "symdel", "seqs": small, "seqs2": big, "k": 1, "mode": "lev"}, True
+        yield "formats", {"engine": "symdel", "seqs": big, "seqs2": small, "k": 1, "mode": "lev"}, True
     for eng in ENGINES:
         for c in G.CONTAINERS:
             yield "container", {"engine": eng, "seqs": W1, "k": 1, "mode": "custom", "container": c}, True
